@@ -114,7 +114,7 @@ def build(net, description="vv generated", with_metadata=True):
         meta_offs.append(Metadata.MetadataEnd(b))
     toffs = []
     for t in tensors:
-        n = b.CreateString(t.name)
+        n = b.CreateString(getattr(t, "wire_name", None) or t.name)  # wire_name: the name written to the file when it is not the (unique) name the builder uses
         sh = None if t.no_shape else _vec(b, Tensor.TensorStartShapeVector, t.shape, b.PrependInt32)
         q = None
         omit = getattr(t, "omit", None)  # "zp" / "scale": that vector is absent from the table (both are optional fields of the schema)
